@@ -188,3 +188,62 @@ Proof.
   destruct X as [X|[X1 X2]]; [left; exact X|right].
   split; [exact X1|]. apply X2. cbn [saves]. exact ACC.
 Qed.
+
+(* ---------- lifted to histories: any number of Puts for ONE address on a missing config
+   (login, token refresh, re-login ...): the file always reopens to the last credential ---------- *)
+Definition one_entry_mem (a : str) (e : entry) : mem :=
+  {| m_content := [(configFieldAuths, TAuths [(a, e)])]; m_cache := [(a, e)]; m_cs := [] |}.
+
+Definition one_addr_shape (a : str) (st : state) : Prop :=
+  st = fresh_store \/ exists e, st_mem st = one_entry_mem a e.
+
+Lemma one_addr_put a c st :
+  one_addr_shape a st -> put_accepts a c = true ->
+  let st' := fst (step b64_encode b64_decode st (Put a c)) in
+  st_file st' = Some (one_entry_doc a (encode_auth b64_encode (c_user c) (c_pass c)) (c_refresh c) (c_access c)) /\
+  one_addr_shape a st'.
+Proof.
+  intros SH ACC. cbn [step]. rewrite ACC. cbn [negb fst].
+  destruct SH as [->|[e M]].
+  - split; [reflexivity|]. right. eexists. reflexivity.
+  - rewrite M. unfold one_entry_mem. cbn [m_content m_cache m_cs save saved_doc st_file st_mem].
+    assert (D1 : del a [(a, e)] = []).
+    { unfold del. cbn [filter fst]. rewrite str_eqb_refl. reflexivity. }
+    unfold saved_doc, set. cbn [m_content m_cache m_cs]. rewrite D1.
+    split; [reflexivity|]. right. eexists. unfold one_entry_mem. reflexivity.
+Qed.
+
+Lemma repeated_put_reopen a : forall (cs : list cred) c st,
+  one_addr_shape a st ->
+  Forall (fun c => put_accepts a c = true /\ bytes (c_user c ++ colon :: c_pass c)) (cs ++ [c]) ->
+  let stf := run b64_encode b64_decode st (map (Put a) (cs ++ [c])) in
+  exists d, st_file stf = Some d /\
+  exists st2 tops ents,
+    open_bytes (Some (render_file [] [] d)) = Some (st2, tops, ents) /\
+    get_candidates b64_decode (cache_of st2) a = [RCred c].
+Proof.
+  induction cs as [|c0 cs IH]; intros c st SH F.
+  - inversion F as [|? ? [ACC B] _]; subst. cbn [app map run].
+    destruct (one_addr_put a c st SH ACC) as [FD _].
+    eexists. split; [exact FD|].
+    destruct (put_accepts_valid a c ACC) as (VA & VR & VT).
+    destruct (one_entry_reads_back a (encode_auth b64_encode (c_user c) (c_pass c)) (c_refresh c) (c_access c)
+                VA (encode_auth_valid _ _ B) VR VT) as (l & src & RC & LD & _).
+    set (e := Old src (VFields (encode_auth b64_encode (c_user c) (c_pass c)) (c_refresh c) (c_access c) [] [])) in *.
+    unfold open_bytes. rewrite RC. cbv beta iota. rewrite LD.
+    match goal with |- context [open_store ?x] =>
+      assert (OS : open_store x =
+                 Some {| st_mem := {| m_content := [(configFieldAuths, TAuths [(a, e)])]; m_cache := [(a, e)]; m_cs := [] |};
+                         st_file := Some [(configFieldAuths, TAuths [(a, e)])] |}) by reflexivity;
+      rewrite OS
+    end.
+    eexists. eexists. eexists. split; [reflexivity|].
+    unfold cache_of. cbn [st_mem m_cache].
+    assert (LK : lookup a [(a, e)] = Some e) by (cbn [lookup]; now rewrite str_eqb_refl).
+    rewrite (candidates_exact b64_decode _ a e LK). subst e. cbn [cred_of_entry].
+    f_equal.
+    exact (codec_roundtrip b64_encode b64_decode bytes b64_roundtrip b64_encode_nonempty c (put_accepts_colon a c ACC) B).
+  - inversion F as [|? ? [ACC B] F']; subst. cbn [app map run].
+    destruct (one_addr_put a c0 st SH ACC) as [_ SH'].
+    exact (IH c _ SH' F').
+Qed.
